@@ -31,7 +31,7 @@ from checks import kani_runner as K
 from checks import c12_models as M
 from sqvm.qv import QV
 
-PAR = 6
+PAR = int(os.environ.get("C12_PAR", "6"))
 VERIF = os.path.dirname(os.path.dirname(os.path.abspath(__file__)))
 WORLD = os.path.join(VERIF, "kani", "c12world")
 CORE = "/repo/quiver-core/src"
@@ -135,7 +135,7 @@ def main():
     rep = Report("C12")
     tier = rep.tier
     timeout_s = 900 if tier == "quick" else 3600
-    mem_gb = 9
+    mem_gb = int(os.environ.get("C12_MEM_GB", "9"))
     hs = [h for h in discover() if tier == "thorough" or h[2]]
     only = os.environ.get("C12_ONLY")
     if only:
@@ -156,6 +156,8 @@ def main():
             rep.states += 1
             rep.transitions += max(r.checks, 1)
             rep.functions.append("%s: %s" % (name, what))
+            rep.extra.setdefault("per_harness", {})[name] = {"status": r.status, "seconds": round(r.seconds, 1),
+                                                             "failed_checks": [d for _, d in r.failed_checks][:4]}
             if r.status == "success":
                 rep.ok()
                 rep.sample({"harness": name, "claim": what, "cbmc_checks": r.checks, "covers": r.covers,
